@@ -222,10 +222,10 @@ func init() {
 	}})
 	reg(&target{name: "env.registry.process", group: "envelope", seeds: envelopeSeeds, setup: worldSetup, run: func(in []byte) error {
 		w := getWorld()
-		_, err := w.env.Registry.Process(append([]byte{}, in...), w.env.ProcCtx(w.ids[0]))
+		_, err := w.env.Registry.Process(dup(in), w.env.ProcCtx(w.ids[0]))
 		for _, name := range []string{"acrastruct", "acrablock"} {
 			if h, e := crypto.GetHandlerByName(name); e == nil {
-				_, _ = w.env.Registry.DecryptWithHandler(h, append([]byte{}, in...), w.env.ProcCtx(w.ids[0]))
+				_, _ = w.env.Registry.DecryptWithHandler(h, dup(in), w.env.ProcCtx(w.ids[0]))
 				_ = h.MatchDataSignature(in)
 			}
 		}
@@ -283,9 +283,9 @@ func init() {
 		},
 		run: func(in []byte) error {
 			w := getWorld()
-			_, _, err := det.OnColumn(w.ctxFor(w.ids[0]), append([]byte{}, in...))
-			_, _, err2 := oldDet.OnColumn(w.ctxFor(w.ids[0]), append([]byte{}, in...))
-			_, _ = det.OnCryptoEnvelope(w.ctxFor(w.ids[0]), append([]byte{}, in...))
+			_, _, err := det.OnColumn(w.ctxFor(w.ids[0]), dup(in))
+			_, _, err2 := oldDet.OnColumn(w.ctxFor(w.ids[0]), dup(in))
+			_, _ = det.OnCryptoEnvelope(w.ctxFor(w.ids[0]), dup(in))
 			if err != nil {
 				return err
 			}
@@ -331,7 +331,7 @@ func init() {
 		if col == "" {
 			col = "plain_ab"
 		}
-		_, err := w.env.WriteChain().EncryptWithClientID(w.ids[0], append([]byte{}, in[1:]...), w.env.Setting(col))
+		_, err := w.env.WriteChain().EncryptWithClientID(w.ids[0], dup(in[1:]), w.env.Setting(col))
 		return err
 	}})
 }
